@@ -391,7 +391,11 @@ func (g *gen) need1(t vt) {
 
 func (g *gen) step() {
 	r := g.r
-	switch k := r.Intn(102); {
+	k := r.Intn(102)
+	if k < 24 && len(g.st) >= 6 && r.Intn(4) > 0 {
+		k = 36 + r.Intn(66) // a deep stack: rather consume than push
+	}
+	switch {
 	case k < 12:
 		t := g.randTy()
 		g.emitConst(t, g.constVal(t))
@@ -484,7 +488,7 @@ func (g *gen) step() {
 		g.push(to)
 	default: // trapping division / remainder
 		t := g.pickTy()
-		if r.Intn(2) == 0 {
+		if r.Intn(3) == 0 {
 			// fresh operands: dividend min / -1 / 0 / anything, divisor 0 / -1 / 1 / anything
 			switch r.Intn(5) {
 			case 0, 1:
@@ -495,9 +499,9 @@ func (g *gen) step() {
 				g.pushOf(t)
 			}
 			switch r.Intn(8) {
-			case 0, 1:
+			case 0:
 				g.emitConst(t, 0)
-			case 2, 3:
+			case 1, 2, 3:
 				g.emitConst(t, ^uint64(0))
 			case 4:
 				g.emitConst(t, 1)
@@ -674,7 +678,7 @@ var handWritten = []string{
 	"- - i64",
 	"- - i32,i64",
 	"- - i64,i32",
-	"- - return",
+	"- - - return",
 	"i32,i64 - i64,i64,i32 return",
 	"i32 i32 - local.get:0",
 	"i32 i32 - local.get:0 return",
